@@ -6,6 +6,7 @@ prop=sys.argv[1]
 d=check.ensure_facts(['default']); ctx=check.Ctx(d,'quick',['default'])
 mod=importlib.import_module('rules.'+prop.lower())
 R=Rm.Report(prop.upper(),'quick'); mod.check(ctx,R)
+from rules import mechanisms; mechanisms.run(R, ctx, prop.upper())
 for o in R.obs:
     print(('OK ' if o.ok else ('INV' if o.inventory else 'BAD')), o.rule, o.fn.split('::')[-1], o.site, '|', o.detail[:int(sys.argv[2]) if len(sys.argv)>2 else 220])
 print(R.floors)
